@@ -92,10 +92,10 @@ def errorf {α : Type} : P α := fun st =>
   | Except.ok p => Except.error (PErr.err p)
   | Except.error e => Except.error e
 
-/-- `t.unexpected(token, ctx)`: a lexical error is reported where the lexer failed -/
+/-- `t.unexpected(token, ctx)`: the offending token is made the current one first, so the
+    error is reported at ITS position whatever look-ahead has been read since (518abbf) -/
 def unexpected {α : Type} (token : Item) : P α := do
-  if token.typ == .tError then
-    modify fun s => { s with tok0 := token, peekCount := 0 }
+  modify fun s => { s with tok0 := token, peekCount := 0 }
   errorf
 
 def expect (expected : ItemType) : P Item := do
